@@ -270,8 +270,11 @@ def write_hash_list(hash_list: MHLHashList, file_path: str):
 
 
 def _write_xml_element_to_file(file, xml_element, indent: str):
-    xml_string = etree.tostring(xml_element, pretty_print=True, encoding="unicode")
-    _write_xml_string_to_file(file, xml_string, indent)
+    # indent structurally (whitespace between elements only): an edit of the serialised text cannot tell the line break
+    # lxml puts in front of a closing tag from one that ends a text value, e.g. a file name ending in a line feed
+    etree.indent(xml_element, space="  ", level=len(indent) // 2)
+    xml_string = indent + etree.tostring(xml_element, encoding="unicode") + "\n"
+    file.write(xml_string.encode("utf-8"))
 
 
 def _write_xml_string_to_file(file, xml_string: str, indent: str):
